@@ -30,6 +30,44 @@ pub fn run(p: &[String]) -> Vec<String> {
             let (c, r, lc, lr) = index_from_coordinate(unhex(&p[1]));
             vec![ob(c), ob(r), ob(lc), ob(lr)]
         }
+        "range_rt" => {
+            let t = unhex(&p[1]);
+            let mut r = umya_spreadsheet::Range::default();
+            r.set_range(t.as_str());
+            if t.chars().any(|c| c.is_ascii_digit()) && t.chars().any(|c| c.is_ascii_alphabetic()) {
+                let (a, b2, c, d) = umya_spreadsheet::helper::range::get_start_and_end_point(&t);
+                vec![hex(&r.get_range()), a.to_string(), b2.to_string(), c.to_string(), d.to_string()]
+            } else {
+                vec![hex(&r.get_range())]
+            }
+        }
+        "coord_list" => {
+            let mut out = vec![];
+            for (c, r) in umya_spreadsheet::helper::range::get_coordinate_list(&unhex(&p[1])) {
+                out.push(c.to_string());
+                out.push(r.to_string());
+            }
+            out
+        }
+        "split_addr" => {
+            let t = unhex(&p[1]);
+            let (a, b2) = umya_spreadsheet::helper::address::split_address(&t);
+            vec![hex(a), hex(b2)]
+        }
+        "join_split" => {
+            let j = umya_spreadsheet::helper::address::join_address(&unhex(&p[1]), &unhex(&p[2]));
+            let (a, b2) = umya_spreadsheet::helper::address::split_address(&j);
+            vec![hex(a), hex(b2)]
+        }
+        "addr_struct" => {
+            let mut a = umya_spreadsheet::Address::default();
+            a.set_sheet_name(unhex(&p[1]));
+            a.get_range_mut().set_range(unhex(&p[2]));
+            let text = if b(&p[3]) { va::address_ptn2(&a) } else { a.get_address() };
+            let mut c = umya_spreadsheet::Address::default();
+            c.set_address(text.as_str());
+            vec![hex(&text), hex(c.get_sheet_name()), hex(&c.get_range().get_range())]
+        }
         // ---- C07 scalar
         "adj_insert" => vec![va::adjustment_insert_coordinate(&u(&p[1]), &u(&p[2]), &u(&p[3])).to_string()],
         "adj_remove" => vec![va::adjustment_remove_coordinate(&u(&p[1]), &u(&p[2]), &u(&p[3])).to_string()],
